@@ -12,7 +12,7 @@ P_INDEX_TEMPLATE = '''// GENERATED on every run from the macro-expanded /repo so
 // the statements of its closure body that compute the index passed to swap_remove, verbatim.
 // Dropped (stated exactly): the statement that collects the input into `sorted`, the `sorted.sort()` call and the
 // final `swap_remove` expression itself, whose index argument is what this function returns.
-// `sorted` is replaced by a stand-in that only has a length, so lengths up to 2^52 are covered without allocating.
+// `sorted` is replaced by a stand-in that only has a length, so huge lengths are covered without allocating.
 pub struct Sorted { pub n: usize }
 impl Sorted { pub fn len(&self) -> usize { self.n } pub fn is_empty(&self) -> bool { self.n == 0 } }
 #[allow(unused_variables, unused_mut)]
@@ -72,7 +72,7 @@ def extract_p_index_statement():
 
 
 KANI_QUICK = ['min_max_le3', 'sum_le3', 'count_le3', 'not_le3', 'mean_le2', 'percentile_index_len_le_2p40']
-KANI_THOROUGH = ['min_max_le5', 'sum_le5', 'count_le5', 'mean_le3', 'percentile_index_len_le_2p52']
+KANI_THOROUGH = ['min_max_le5', 'sum_le5', 'count_le5', 'mean_le3', 'percentile_index_len_le_2p46']
 
 B5 = '0,1,127,128,255'
 
